@@ -37,6 +37,15 @@ theorem Series_sources (R : K → K → Prop) (op : OneP K)
     SeriesElem R p ↔ relBs (TP_Series op).B (TP_Series op).V2b (TP_Series op).I2b p := by
   simpa [TP_Series] using series_elem R op.Z op.Voc hR p
 
+/-- **SeriesAlt_sources**: matrix and source vector built by `SeriesAlt(OP)` (generated `TP_SeriesAlt`) are those of the
+    one-port drawn in the bottom rail -/
+theorem SeriesAlt_sources (R : K → K → Prop) (op : OneP K)
+    (hR : ∀ v i, R v i ↔ v = op.Voc + op.Z * i) (p : Port K) :
+    SeriesAltElem R p ↔ relBs (TP_SeriesAlt op).B (TP_SeriesAlt op).V2b (TP_SeriesAlt op).I2b p := by
+  obtain ⟨V1, I1, V2, I2⟩ := p
+  simp only [SeriesAltElem, relBs, TP_SeriesAlt, B_Zseries, hR]
+  constructor <;> (rintro ⟨h1, h2⟩; constructor <;> grind)
+
 /-- **Shunt_sound**: matrix and source vector built by `Shunt(OP)` are those of the physical
     element with Norton form i = Y v − Isc -/
 theorem Shunt_sound (R : K → K → Prop) (op : OneP K) (hR : ∀ v i, R v i ↔ i = op.Y * v - op.Isc)
@@ -83,8 +92,8 @@ theorem chain_sources_complete (a b : TPB K) (r : Port K)
   · simp [relBs]
   · simp only [relBs]; constructor <;> grind
 
-/-- `TwoPort.chain` puts `self` first -/
-theorem chain_order : (chainOrder = "self_first") := rfl
+/- (`TwoPort.chain` puts `self` first: `Gen.chainOrder` is a literal printed by tx_sections and checked by the translator,
+   not a theorem; the order is what `TP_LSection`, `TP_TSection`, `TP_Ladder_go` … are generated with.) -/
 
 /-! ## 3. Section formulas -/
 
@@ -296,6 +305,103 @@ theorem Ladder_sound (Z0 : K) (op1 : OneP K) (args : List (OneP K)) (r : Port K)
   intro p hp
   exact (Series_matrix (impRel op1.Z) op1 (fun v i => Iff.rfl) Z0 p).mp hp
 
+/-! ### ladders with their sources, both directions, `Ladder` and `LadderAlt` -/
+
+/-- a physical ladder whose stage `m` is the relation `ph m a` cascaded after what has been built -/
+def LadderPhysG (ph : Nat → OneP K → Port K → Prop) (m : Nat) : List (OneP K) → (Port K → Prop) → Port K → Prop
+  | [], P, r => P r
+  | a :: t, P, r => LadderPhysG ph (m + 1) t (fun r' => ∃ p q, CascadeP p q r' ∧ P p ∧ ph m a q) r
+
+def stagesG (st : Nat → OneP K → TPB K) (m : Nat) : List (OneP K) → List (TPB K)
+  | [] => []
+  | a :: t => st m a :: stagesG st (m + 1) t
+
+/-- **chainAll_sources**: for ANY stage rule whose stages are exactly described by their (B, V2b, I2b), the
+    physical cascade of any length is EXACTLY (both directions, sources included) the accumulated model --
+    a fold of `chain_sources` / `chain_sources_complete` -/
+theorem chainAll_sources (ph : Nat → OneP K → Port K → Prop) (st : Nat → OneP K → TPB K)
+    (hst : ∀ m a q, ph m a q ↔ relBs (st m a).B (st m a).V2b (st m a).I2b q) (args : List (OneP K)) :
+    ∀ (m : Nat) (tp : TPB K) (P : Port K → Prop), (∀ p, P p ↔ relBs tp.B tp.V2b tp.I2b p) →
+      ∀ r, LadderPhysG ph m args P r ↔
+        relBs (chainAll tp (stagesG st m args)).B (chainAll tp (stagesG st m args)).V2b (chainAll tp (stagesG st m args)).I2b r := by
+  induction args with
+  | nil => intro m tp P hP r; exact hP r
+  | cons a t ih =>
+    intro m tp P hP r
+    simp only [LadderPhysG, stagesG, chainAll]
+    apply ih (m + 1) (TP_Chain tp (st m a))
+    intro r'
+    constructor
+    · rintro ⟨p, q, hc, hp, hq⟩
+      exact chain_sources tp (st m a) p q r' hc ((hP p).mp hp) ((hst m a q).mp hq)
+    · intro h
+      obtain ⟨p, q, hc, hp, hq⟩ := chain_sources_complete tp (st m a) r' h
+      exact ⟨p, q, hc, (hP p).mpr hp, (hst m a q).mpr hq⟩
+
+/-- stage `m` of `Ladder` with its sources: a series one-port (Thévenin data) for odd m, a shunt one-port (Norton data) else -/
+def ladderPh (m : Nat) (a : OneP K) (q : Port K) : Prop :=
+  if m % 2 = 1 then SeriesElem (fun v i => v = a.Voc + a.Z * i) q else ShuntElem (fun v i => i = a.Y * v - a.Isc) q
+/-- stage `m` of `LadderAlt`: shunt for odd m, series else -/
+def ladderAltPh (m : Nat) (a : OneP K) (q : Port K) : Prop :=
+  if m % 2 = 1 then ShuntElem (fun v i => i = a.Y * v - a.Isc) q else SeriesElem (fun v i => v = a.Voc + a.Z * i) q
+def ladderAltStage (m : Nat) (a : OneP K) : TPB K := if m % 2 = 1 then TP_Shunt a else TP_Series a
+
+theorem ladderStage_sources (m : Nat) (a : OneP K) (q : Port K) :
+    ladderPh m a q ↔ relBs (ladderStage m a).B (ladderStage m a).V2b (ladderStage m a).I2b q := by
+  unfold ladderPh ladderStage
+  split
+  · exact Series_sources _ a (fun _ _ => Iff.rfl) q
+  · exact Shunt_sound _ a (fun _ _ => Iff.rfl) q
+
+theorem ladderAltStage_sources (m : Nat) (a : OneP K) (q : Port K) :
+    ladderAltPh m a q ↔ relBs (ladderAltStage m a).B (ladderAltStage m a).V2b (ladderAltStage m a).I2b q := by
+  unfold ladderAltPh ladderAltStage
+  split
+  · exact Shunt_sound _ a (fun _ _ => Iff.rfl) q
+  · exact Series_sources _ a (fun _ _ => Iff.rfl) q
+
+theorem stagesG_ladder (m : Nat) (args : List (OneP K)) : stagesG ladderStage m args = stagesFrom m args := by
+  induction args generalizing m with
+  | nil => rfl
+  | cons a t ih => simp [stagesG, stagesFrom, ih]
+
+/-- **ladderAlt_chain**: `LadderAlt(OP1, *args)` is `Shunt(OP1)` chained with Series, Shunt, Series, … -/
+theorem ladderAlt_go_chain (tp : TPB K) (m : Nat) (args : List (OneP K)) :
+    TP_LadderAlt_go tp m args = chainAll tp (stagesG ladderAltStage m args) := by
+  induction args generalizing tp m with
+  | nil => rfl
+  | cons a t ih =>
+    simp only [TP_LadderAlt_go, stagesG, chainAll, ladderAltStage]
+    rw [ih]
+    split <;> rfl
+
+theorem ladderAlt_chain (op1 : OneP K) (args : List (OneP K)) :
+    TP_LadderAlt op1 args = chainAll (TP_Shunt op1) (stagesG ladderAltStage 0 args) :=
+  ladderAlt_go_chain _ 0 args
+
+/-- **Ladder_sources**: for a ladder of ANY length whose arms carry sources, the physical ladder admits EXACTLY the
+    port behaviours of the (B, V2b, I2b) that `Ladder` accumulates (both directions) -/
+theorem Ladder_sources (op1 : OneP K) (args : List (OneP K)) (r : Port K) :
+    LadderPhysG ladderPh 0 args (SeriesElem (fun v i => v = op1.Voc + op1.Z * i)) r ↔
+      relBs (TP_Ladder op1 args).B (TP_Ladder op1 args).V2b (TP_Ladder op1 args).I2b r := by
+  rw [ladder_chain, ← stagesG_ladder]
+  exact chainAll_sources ladderPh ladderStage ladderStage_sources args 0 (TP_Series op1) _
+    (fun p => Series_sources _ op1 (fun _ _ => Iff.rfl) p) r
+
+/-- **LadderAlt_sources**: the same for `LadderAlt` (first arm in shunt) -/
+theorem LadderAlt_sources (op1 : OneP K) (args : List (OneP K)) (r : Port K) :
+    LadderPhysG ladderAltPh 0 args (ShuntElem (fun v i => i = op1.Y * v - op1.Isc)) r ↔
+      relBs (TP_LadderAlt op1 args).B (TP_LadderAlt op1 args).V2b (TP_LadderAlt op1 args).I2b r := by
+  rw [ladderAlt_chain]
+  exact chainAll_sources ladderAltPh ladderAltStage ladderAltStage_sources args 0 (TP_Shunt op1) _
+    (fun p => Shunt_sound _ op1 (fun _ _ => Iff.rfl) p) r
+
+/-- non-vacuity: Series(Z = 2, Voc = 1) then Shunt(Y = 1/3, Isc = 0): V1 = 6, I1 = 1 gives V2 = 6 − 2 + 1 = 5 … and the
+    open-ended port (I2 = −I1 + V2/3) -/
+example : LadderPhysG ladderPh 0 [(⟨3, 1/3, 0, 0⟩ : OneP ℚ)] (SeriesElem (fun v i => v = 1 + 2 * i)) ⟨6, 1, 5, 2/3⟩ := by
+  refine ⟨⟨6, 1, 5, -1⟩, ⟨5, 1, 5, 2/3⟩, by simp [CascadeP], by simp [SeriesElem]; norm_num, ?_⟩
+  simp [ladderPh, ShuntElem]; norm_num
+
 /-! ## 5. Connections of two two-ports add the corresponding matrices -/
 
 /-- **par2_Y**: `Par2` adds Y matrices; right whenever both constituents keep their own port
@@ -359,6 +465,68 @@ theorem invhybrid2_G (b1 b2 : M2 K) (Z0 : K) (p q r : Port K) (h1 : b1.a22 ≠ 0
   obtain ⟨e1, e2⟩ := y1
   obtain ⟨e3, e4⟩ := y2
   constructor <;> grind
+
+/-- **par2_Y_complete** (converse of `par2_Y`): every behaviour of the summed Y matrix splits into behaviours of the
+    two constituents connected in parallel -/
+theorem par2_Y_complete (b1 b2 : M2 K) (Z0 : K) (r : Port K) (h1 : b1.a12 ≠ 0) (h2 : b2.a12 ≠ 0)
+    (hr : rel .Y (TP_Par2_Y b1 b2 Z0) Z0 r) :
+    ∃ p q, ParConn p q r ∧ rel .B b1 Z0 p ∧ rel .B b2 Z0 q := by
+  obtain ⟨V1, I1, V2, I2⟩ := r
+  let y1 := B_to_Y b1 Z0
+  let y2 := B_to_Y b2 Z0
+  refine ⟨⟨V1, y1.a11 * V1 + y1.a12 * V2, V2, y1.a21 * V1 + y1.a22 * V2⟩,
+          ⟨V1, y2.a11 * V1 + y2.a12 * V2, V2, y2.a21 * V1 + y2.a22 * V2⟩, ?_, ?_, ?_⟩
+  · simp only [rel, lin, TP_Par2_Y, M2.add] at hr
+    obtain ⟨e1, e2⟩ := hr
+    simp only [ParConn, y1, y2, true_and]
+    constructor <;> grind
+  · exact (C08.B_to_Y_sound b1 Z0 _ h1).mpr ⟨rfl, rfl⟩
+  · exact (C08.B_to_Y_sound b2 Z0 _ h2).mpr ⟨rfl, rfl⟩
+
+theorem ser2_Z_complete (b1 b2 : M2 K) (Z0 : K) (r : Port K) (h1 : b1.a21 ≠ 0) (h2 : b2.a21 ≠ 0)
+    (hr : rel .Z (TP_Ser2_Z b1 b2 Z0) Z0 r) :
+    ∃ p q, SerConn p q r ∧ rel .B b1 Z0 p ∧ rel .B b2 Z0 q := by
+  obtain ⟨V1, I1, V2, I2⟩ := r
+  let z1 := B_to_Z b1 Z0
+  let z2 := B_to_Z b2 Z0
+  refine ⟨⟨z1.a11 * I1 + z1.a12 * I2, I1, z1.a21 * I1 + z1.a22 * I2, I2⟩,
+          ⟨z2.a11 * I1 + z2.a12 * I2, I1, z2.a21 * I1 + z2.a22 * I2, I2⟩, ?_, ?_, ?_⟩
+  · simp only [rel, lin, TP_Ser2_Z, M2.add] at hr
+    obtain ⟨e1, e2⟩ := hr
+    simp only [SerConn, z1, z2, true_and]
+    constructor <;> grind
+  · exact (C08.B_to_Z_sound b1 Z0 _ h1).mpr ⟨rfl, rfl⟩
+  · exact (C08.B_to_Z_sound b2 Z0 _ h2).mpr ⟨rfl, rfl⟩
+
+theorem hybrid2_H_complete (b1 b2 : M2 K) (Z0 : K) (r : Port K) (h1 : b1.a11 ≠ 0) (h2 : b2.a11 ≠ 0)
+    (hr : rel .H (TP_Hybrid2_H b1 b2 Z0) Z0 r) :
+    ∃ p q, HybConn p q r ∧ rel .B b1 Z0 p ∧ rel .B b2 Z0 q := by
+  obtain ⟨V1, I1, V2, I2⟩ := r
+  let g1 := B_to_H b1 Z0
+  let g2 := B_to_H b2 Z0
+  refine ⟨⟨g1.a11 * I1 + g1.a12 * V2, I1, V2, g1.a21 * I1 + g1.a22 * V2⟩,
+          ⟨g2.a11 * I1 + g2.a12 * V2, I1, V2, g2.a21 * I1 + g2.a22 * V2⟩, ?_, ?_, ?_⟩
+  · simp only [rel, lin, TP_Hybrid2_H, M2.add] at hr
+    obtain ⟨e1, e2⟩ := hr
+    simp only [HybConn, g1, g2, true_and]
+    constructor <;> grind
+  · exact (C08.B_to_H_sound b1 Z0 _ h1).mpr ⟨rfl, rfl⟩
+  · exact (C08.B_to_H_sound b2 Z0 _ h2).mpr ⟨rfl, rfl⟩
+
+theorem invhybrid2_G_complete (b1 b2 : M2 K) (Z0 : K) (r : Port K) (h1 : b1.a22 ≠ 0) (h2 : b2.a22 ≠ 0)
+    (hr : rel .G (TP_InverseHybrid2_G b1 b2 Z0) Z0 r) :
+    ∃ p q, InvHybConn p q r ∧ rel .B b1 Z0 p ∧ rel .B b2 Z0 q := by
+  obtain ⟨V1, I1, V2, I2⟩ := r
+  let g1 := B_to_G b1 Z0
+  let g2 := B_to_G b2 Z0
+  refine ⟨⟨V1, g1.a11 * V1 + g1.a12 * I2, g1.a21 * V1 + g1.a22 * I2, I2⟩,
+          ⟨V1, g2.a11 * V1 + g2.a12 * I2, g2.a21 * V1 + g2.a22 * I2, I2⟩, ?_, ?_, ?_⟩
+  · simp only [rel, lin, TP_InverseHybrid2_G, M2.add] at hr
+    obtain ⟨e1, e2⟩ := hr
+    simp only [InvHybConn, g1, g2, true_and]
+    constructor <;> grind
+  · exact (C08.B_to_G_sound b1 Z0 _ h1).mpr ⟨rfl, rfl⟩
+  · exact (C08.B_to_G_sound b2 Z0 _ h2).mpr ⟨rfl, rfl⟩
 
 /-! ## 6. Non-vacuity -/
 
